@@ -5,7 +5,10 @@ re-read from the working tree on every check (called by tools/gen_params.py).
   gc_rem_fin         does GC_Rem_Ptr finalise an object it finds in the pending list (freelist)?
                      (false = pinned code: the entry is only NULLed; true = repaired code, D18)
   gc_null_first      does GC_Sweep's finaliser loop clear freelist[i] before finalising it?
-  gc_mitems_rule_ok  both threshold updates read  nitems + nitems / 2 + 1
+  gc_shrink_wanted   (Notation) when GC_Resize_Less rehashes to ideal(nitems): `n < nslots`, optionally behind an
+                     early-return guard (hysteresis) over nitems / nslots / named constants
+  gc_mitems_rule     (Notation) the collection threshold written at both places, as an expression in nitems
+  gc_mitems_rule_ok  both threshold updates use the same expression
   gc_set_shape_ok    GC_Set: running test, nitems++, bounds, Resize_More, Set_Ptr, `nitems > mitems`
                      (an early return while a sweep is running, `gc->freelist isnt NULL`, is accepted:
                      the model has no allocation inside a sweep, outside one the freelist is NULL)
@@ -36,8 +39,110 @@ def _loops(body, key):
     return res
 
 
+class _Bad(Exception):
+    pass
+
+
+def _cexpr(text, env, consts):
+    """Translate a small C expression (identifiers of env, named integer constants, literals, * / +,
+    one comparison at most, parentheses) into a Coq nat/bool expression.  Unsigned C arithmetic and
+    Coq nat arithmetic agree on it as long as nothing overflows size_t (table sizes are far below);
+    there is no subtraction.  Returns (coq_text, is_bool)."""
+    toks = re.findall(r'gc->\w+|[A-Za-z_]\w*|\d+|>=|<=|==|[()*/+<>]|\S', text)
+    pos = [0]
+
+    def peek():
+        return toks[pos[0]] if pos[0] < len(toks) else None
+
+    def take():
+        t = peek(); pos[0] += 1; return t
+
+    def atom():
+        t = take()
+        if t == '(':
+            e = cmp_(); 
+            if take() != ')': raise _Bad(text)
+            return e
+        if t is None: raise _Bad(text)
+        if t.isdigit(): return t
+        if t in env: return env[t]
+        if t in consts: return str(consts[t])
+        raise _Bad('unknown token %r in %r' % (t, text))
+
+    def mul():
+        e = atom()
+        while peek() in ('*', '/'):
+            o = take(); e = '(%s %s %s)' % (e, o, atom())
+        return e
+
+    def add():
+        e = mul()
+        while peek() == '+':
+            take(); e = '(%s + %s)' % (e, mul())
+        return e
+
+    def cmp_():
+        a = add()
+        if peek() in ('>=', '<=', '>', '<', '=='):
+            o = take(); b = add()
+            return {'>=': '(%s <=? %s)' % (b, a), '<=': '(%s <=? %s)' % (a, b), '>': '(%s <? %s)' % (b, a),
+                    '<': '(%s <? %s)' % (a, b), '==': '(%s =? %s)' % (a, b)}[o]
+        return a
+    e = cmp_()
+    if pos[0] != len(toks): raise _Bad(text)
+    return e
+
+
+def _consts(s):
+    c = {}
+    for m in re.finditer(r'\b([A-Z][A-Z0-9_]+)\s*=\s*(\d+)\b', s):
+        c[m.group(1)] = int(m.group(2))
+    for m in re.finditer(r'#define\s+([A-Z][A-Z0-9_]+)\s+(\d+)\b', s):
+        c[m.group(1)] = int(m.group(2))
+    return c
+
+
 def generate(repo, emit, src, func_body):
     s = src('src/GC.c')
+    consts = _consts(s)
+
+    # ---- tuning: when GC_Resize_Less gives slots back, and the collection threshold.  Both are emitted as
+    # NOTATIONS, so the model text of coq/RegistryModel.v follows the source expression; the proofs use no
+    # property of either (any boolean shrink condition, any threshold rule: RegistryProofs.resize_less_ok,
+    # Inv_new_mitems), and are re-checked against whatever is generated here.
+    rl = func_body(s, r'static\s+void\s+GC_Resize_Less\s*\(\s*struct\s+GC\s*\*\s*gc\s*\)\s*\{')
+    shrink = None
+    if rl:
+        body = re.sub(r'\s+', ' ', rl.strip()[1:-1]).strip()
+        core = r'size_t new_size = GC_Ideal_Size\(gc->nitems\); '
+        old = r'size_t old_size = gc->nslots; '
+        tail = r'if \(new_size < old_size\) \{ GC_Rehash\(gc, new_size\); \}'
+        guard = r'if \((?P<g>[^{};]*)\) \{ return; \} '
+        m = (re.fullmatch(core + old + tail, body) or re.fullmatch(old + core + tail, body)
+             or re.fullmatch(old + guard + core + tail, body) or re.fullmatch(core + old + guard + tail, body)
+             or re.fullmatch(old + core + guard + tail, body))
+        if m:
+            try:
+                g = m.groupdict().get('g')
+                if g is None:
+                    shrink = '(n <? ns)%nat'
+                else:
+                    env = {'gc->nitems': 'ni', 'gc->nslots': 'ns', 'old_size': 'ns'}
+                    shrink = '(andb (negb %s%%nat) (n <? ns)%%nat)' % _cexpr(g, env, consts)
+            except _Bad:
+                shrink = None
+    emit('gc_shrink_wanted', ('Notation gc_shrink_wanted ni ns n := %s (only parsing).   (* GC_Resize_Less: rehash to n = ideal(nitems) when this holds *)'
+                              % shrink) if shrink else None)
+
+    rules = re.findall(r'gc->mitems\s*=\s*([^;]*);', s)
+    mit = None
+    if len(rules) == 2 and re.sub(r'\s+', '', rules[0]) == re.sub(r'\s+', '', rules[1]):
+        try:
+            mit = _cexpr(rules[0], {'gc->nitems': 'n'}, consts)
+        except _Bad:
+            mit = None
+    emit('gc_mitems_rule', ('Notation gc_mitems_rule n := %s%%nat (only parsing).   (* gc->mitems = %s *)'
+                            % (mit if mit.startswith('(') else '(%s)' % mit, re.sub(r'\s+', ' ', rules[0]).strip())) if mit else None)
 
     b = func_body(s, r'static\s+uint64_t\s+GC_Hash\s*\(\s*var\s+ptr\s*\)\s*\{')
     m = b and re.search(r'return\s*\(\s*\(uintptr_t\)\s*ptr\s*\)\s*>>\s*(\d+)\s*;', b)
@@ -67,9 +172,8 @@ def generate(repo, emit, src, func_body):
     else:
         emit('gc_null_first', None)
 
-    rule = r'gc->mitems\s*=\s*gc->nitems\s*\+\s*gc->nitems\s*/\s*2\s*\+\s*1\s*;'
-    emit('gc_mitems_rule_ok', 'Definition gc_mitems_rule_ok : bool := true.'
-         if len(re.findall(rule, s)) == 2 and len(re.findall(r'gc->mitems\s*=', s)) == 2 else None)
+    rule = r'gc->mitems\s*=\s*[^;]*;'
+    emit('gc_mitems_rule_ok', 'Definition gc_mitems_rule_ok : bool := true.' if mit else None)
 
     st = func_body(s, r'static\s+void\s+GC_Set\s*\(\s*var\s+self\s*,\s*var\s+key\s*,\s*var\s+val\s*\)\s*\{')
     ok = bool(st) and re.search(
